@@ -204,6 +204,8 @@ func ParseSpecFile(path string, pkgName string) (*SpecFile, error) {
 			cur.Pure = true
 		case "lemma":
 			cur.Lemma = true
+			cur.Pure = true
+			cur.NonDet = true
 		case "opaque":
 			cur.Opaque = true
 		case "nosweep":
